@@ -168,6 +168,24 @@ func checkEncodedStanza(t fataler, fail func(string, ...any), s stz, invalid boo
 		if derr != nil {
 			fail("New%s on start of %s output %q: %v", s.kind, o.name, o.b, derr)
 		}
+		// attributes of the same local names in a foreign namespace are not the
+		// stanza's own: parsing the start element gives the same value with them
+		noisy := start.Copy()
+		ext := func(local, v string) xml.Attr {
+			return xml.Attr{Name: xml.Name{Space: "urn:verif:ext", Local: local}, Value: v}
+		}
+		noisy.Attr = append([]xml.Attr{ext("type", "result"), ext("id", "foreign-id")}, append(noisy.Attr, ext("to", "foreign@example.org/x"), ext("from", "other@example.org/y"), ext("type", "unavailable"), ext("lang", "tlh"))...)
+		var nv2 stz
+		var nerr error
+		if p := ev.Guard(func() { nv2, nerr = newStz(s.kind, noisy) }); p != "" {
+			fail("New%s on a start element with foreign-namespace attributes: %s", s.kind, p)
+		}
+		if nerr != nil {
+			fail("New%s on the start of %s output %q with foreign-namespace attributes added: %v", s.kind, o.name, o.b, nerr)
+		}
+		if d := diffStz(nv2, nv, false); d != "" {
+			fail("%s output %q: New%s(start) = %s, but %s once attributes type/id/to/from/lang in a foreign namespace are added to the start element (%s)", o.name, o.b, s.kind, nv, nv2, d)
+		}
 		dv.kind, nv.kind = s.kind, s.kind
 		if d := diffStz(nv, dv, false); d != "" {
 			fail("%s output %q: New%s(start) = %s but xml.Unmarshal = %s (%s)", o.name, o.b, s.kind, nv, dv, d)
